@@ -3,6 +3,7 @@ import BddVerif.Lemmas.C02HistorySubst
 import BddVerif.Lemmas.AlgoEq2RenDriver
 import BddVerif.Lemmas.SubstituteCanonical
 import BddVerif.Lemmas.ExactWalkC07
+import BddVerif.Lemmas.ExactWalkC07Complete
 #print axioms B.Props.C07.substitute_spec
 #print axioms B.Props.C07.substitute_safe_canonical
 #print axioms B.C02H.substitute_canonical
@@ -12,3 +13,5 @@ import BddVerif.Lemmas.ExactWalkC07
 #print axioms B.Ren.Subst.substitute_eq_canon
 #print axioms B.ExactWalk.compositionExact_sound
 #print axioms B.ExactWalk.compositionExact_sound_wfoB
+#print axioms B.ExactWalk.compositionExact_reject
+#print axioms B.ExactWalk.compositionExact_reject_wfoB
